@@ -134,6 +134,10 @@ func (e *Engine) blockUntil(ready func() bool, what string) {
 		return
 	}
 	if e.sched == nil {
+		if e.finishBudget > 0 {
+			// inside a verif.MustFinish window: the code under test blocks on itself for ever
+			e.finishViolation("the only goroutine blocks for ever on " + what)
+		}
 		panic(pathEnd{"deadlock", "single goroutine blocks forever on " + what})
 	}
 	s := e.sched
